@@ -189,6 +189,26 @@ impl Torrent {
         v
     }
 
+    /// Something un-writable sits where some piece files belong: a symbolic link to a directory (a disk that is full or
+    /// a quota behave alike - the write fails, the name can still be unlinked). Returns the names.
+    pub fn write_obstacles(&self, seed: u64) -> Vec<String> {
+        let mut x = seed.wrapping_mul(0x9E37_79B9_7F4A_7C15) | 1;
+        let mut v = vec![];
+        let _ = std::fs::create_dir_all("obstacle.d");
+        for i in 0..self.geo.pieces_num() {
+            x ^= x << 13;
+            x ^= x >> 7;
+            x ^= x << 17;
+            if x % 3 == 0 {
+                let name = self.piece_file_name(i);
+                if std::os::unix::fs::symlink("obstacle.d", &name).is_ok() {
+                    v.push(name);
+                }
+            }
+        }
+        v
+    }
+
     /// File offsets in the concatenated content: (path as the torrent names it, start, len)
     pub fn file_spans(&self) -> Vec<(String, usize, usize)> {
         let mut pos = 0;
